@@ -139,3 +139,62 @@ def defuse(func_node: ast.AST) -> DefUse:
         d = DefUse(func_node)
         _DU[id(func_node)] = d
     return d
+
+
+def _own_exprs(st: ast.AST) -> List[ast.AST]:
+    """The expressions a statement evaluates itself (not the statements nested in its blocks)."""
+    if isinstance(st, (ast.If, ast.While)):
+        return [st.test]
+    if isinstance(st, (ast.For, ast.AsyncFor)):
+        return [st.iter]
+    if isinstance(st, (ast.With, ast.AsyncWith)):
+        return [it.context_expr for it in st.items]
+    if isinstance(st, ast.Try):
+        return []
+    if isinstance(st, ast.ExceptHandler):
+        return [st.type] if st.type is not None else []
+    if isinstance(st, (ast.FunctionDef, ast.AsyncFunctionDef, ast.ClassDef, ast.Lambda)):
+        return [st]  # a closure may read the name
+    if st.__class__.__name__ == "Match":
+        return [st.subject]  # type: ignore[attr-defined]
+    return [st]
+
+
+def _kills(st: ast.AST, name: str) -> bool:
+    if isinstance(st, ast.Delete):
+        return any(isinstance(t, ast.Name) and t.id == name for t in st.targets)
+    tgts: List[ast.AST] = []
+    if isinstance(st, ast.Assign):
+        tgts = list(st.targets)
+    elif isinstance(st, (ast.AnnAssign,)):
+        tgts = [st.target] if st.value is not None else []
+    elif isinstance(st, (ast.For, ast.AsyncFor)):
+        tgts = [st.target]
+    elif isinstance(st, (ast.With, ast.AsyncWith)):
+        tgts = [it.optional_vars for it in st.items if it.optional_vars is not None]
+    return any(n == name for t in tgts for n, _ in _targets(t))  # type: ignore[arg-type]
+
+
+def param_value_used(func_node: ast.AST, name: str) -> bool:
+    """Does the value the parameter `name` holds at entry reach a read (reaching-definition walk on the CFG)?"""
+    from .cfg import cfg_of
+
+    g = cfg_of(func_node)
+    seen: Set[int] = set()
+    todo = [g.ENTRY]
+    while todo:
+        n = todo.pop()
+        if n in seen:
+            continue
+        seen.add(n)
+        st = g.stmt_of.get(n)
+        if st is not None and g.kind_of.get(n) in ("stmt", "handler"):
+            for e in _own_exprs(st):
+                for x in ast.walk(e):
+                    if isinstance(x, ast.Name) and x.id == name and isinstance(x.ctx, ast.Load):
+                        return True
+            if _kills(st, name):
+                continue
+        for y, _lab in g.succ[n]:
+            todo.append(y)
+    return False
